@@ -296,6 +296,86 @@ theorem halt_on_unknown (st : SState) (h : Nat) (impl : List Nat) :
     rw [hnil] at this
     cases this
 
+/-- G0: defining a genesis spork keeps the ids of the contract state unique (so every theorem above applies to a chain
+    whose genesis configuration defines sporks) -/
+theorem genesis_unique (st : SState) (id enf : Nat) (a : Bool) (hu : UniqueIds st) :
+    UniqueIds (defineGenesis st id a enf) :=
+  unique_filter_cons st hu ⟨id, a, enf⟩
+
+/-- G1 `genesis_gate_by_height`: a spork the genesis configuration defines as activated with enforcement height `e` is
+    active on the store of every momentum of height h ≥ e above the genesis momentum - with e = 0 (the usual set-up of
+    a network that starts with the feature on) from the FIRST momentum after genesis (height 2) on: there is no
+    "too early for any spork" range of heights - -/
+theorem genesis_gate_by_height (st : SState) (id e h : Nat) (h1 : h ≠ 1) (he : e ≤ h) :
+    isActive (defineGenesis st id true e) h id = true := by
+  rw [isActive_iff]
+  exact ⟨h1, ⟨id, true, e⟩, List.mem_cons_self, rfl, he, rfl⟩
+
+theorem genesis_active_from_first_momentum (st : SState) (id h : Nat) (h2 : 2 ≤ h) :
+    isActive (defineGenesis st id true 0) h id = true :=
+  genesis_gate_by_height st id 0 h (by omega) (Nat.zero_le h)
+
+/-- … and not before its configured height, nor ever when it is only defined (not activated) -/
+theorem genesis_gate_not_before (st : SState) (id e h : Nat) (a : Bool) (hlt : a = false ∨ h < e) :
+    isActive (defineGenesis st id a e) h id = false := by
+  cases hact : isActive (defineGenesis st id a e) h id with
+  | false => rfl
+  | true =>
+    exfalso
+    rw [isActive_iff] at hact
+    obtain ⟨_, sp, hm, hA, hE, hI⟩ := hact
+    unfold defineGenesis at hm
+    rcases List.mem_cons.1 hm with h' | h'
+    · subst h'
+      rcases hlt with h0 | h0
+      · simp only at hA; rw [h0] at hA; cases hA
+      · simp only at hE; omega
+    · have := (List.mem_filter.1 h').2
+      simp only [ne_eq, decide_not, Bool.not_eq_eq_eq_not, Bool.not_true, decide_eq_false_iff_not] at this
+      exact this hI
+
+/-- G2 `genesis_activation_not_repeated`: ActivateSpork for a spork that the genesis configuration defines as activated is
+    refused for every sender and height - whatever its enforcement height (0 included): the stored record, hence the
+    enforcement height, stays what the configuration says -/
+theorem genesis_activation_not_repeated (st : SState) (s : Sender) (id e fh : Nat) :
+    activate (defineGenesis st id true e) s fh id = none := by
+  unfold activate
+  split
+  · rfl
+  · have : find (defineGenesis st id true e) id = some ⟨id, true, e⟩ := by
+      unfold find defineGenesis
+      simp only [List.find?_cons, decide_true]
+    rw [this]
+    rfl
+
+theorem genesis_activation_not_repeatedW (w : Nat × Nat) (st : SState) (s : Sender) (id e fh : Nat) :
+    activateW w (defineGenesis st id true e) s fh id = none := by
+  unfold activateW
+  split
+  · rfl
+  · have : find (defineGenesis st id true e) id = some ⟨id, true, e⟩ := by
+      unfold find defineGenesis
+      simp only [List.find?_cons, decide_true]
+    rw [this]
+    rfl
+
+/-- G3 `genesis_feature_never_switched_off`: once a genesis-activated spork is enforced (height h), no activation call -
+    for this or any other spork, by any sender - switches it off for a later height -/
+theorem genesis_feature_never_switched_off (st st' : SState) (s : Sender) (fh id' id e h h' : Nat) (hu : UniqueIds st)
+    (h2 : 2 ≤ h) (he : e ≤ h) (hh : h ≤ h') (hact : activate (defineGenesis st id true e) s fh id' = some st') :
+    isActive st' h' id = true :=
+  activate_keeps_active _ st' s fh id' id h h' (genesis_unique st id e true hu) hact
+    (genesis_gate_by_height st id e h (by omega) he) (by omega) hh
+
+/-- non-vacuity (the genesis family the stream runs): htlc defined as activated at 0, another spork activated from 9, a
+    third only created: first momentum, boundary 8/9, the created one after its activation at frontier 4 -/
+example :
+    let g := defineGenesis (defineGenesis (defineGenesis [] 1 true 0) 2 true 9) 3 false 0
+    isActive g 1 1 = false ∧ isActive g 2 1 = true ∧ isActive g 6 1 = true ∧ isActive g 8 2 = false ∧ isActive g 9 2 = true ∧
+    isActive g 50 3 = false ∧ activate g .sporkKey 4 1 = none ∧ activate g .sporkKey 4 2 = none ∧
+    (activate g .sporkKey 4 3).map (fun st => (isActive st 9 3, isActive st 10 3, isActive st 10 1)) = some (false, true, true) := by
+  decide
+
 /-- reviewed protocol constants (regenerated from the tree on every run): the minimum activation delay and the
     window of the community spork key. A change of consensus-critical constants must be a reviewed decision. -/
 theorem spork_constants_reviewed :
